@@ -1,6 +1,7 @@
 package main
 
 import (
+	"sort"
 	"fmt"
 	"os"
 	"path/filepath"
@@ -81,7 +82,9 @@ func writeEvidence(a *agg, base uint64, wall float64, reported, known, parallel,
 				"once-contended": a.probes["two-tasks-inside-once-initialisation"], "shared-parameter-map": a.probes["map-object-shared-by-2-or-more-tasks"],
 				"simulated-clock-jump": a.clockJumps, "simulated-timer-fired": a.timersFired,
 				"library-goroutine-scheduled-during-a-call": a.probes["library-started-goroutine-ran-while-a-caller-was-inside-a-call"],
+				"reference-process-environment-changed": envPerturbed,
 			},
+			"environment_variables_read_by_tree": envVarNames(),
 			"simulated_time_total_s":   float64(a.simNanos) / 1e9,
 			"simulator_owned_constructs": sites.SimOwned,
 			"real_components":    []string{"pql", "pql/parser (statement-level yields inserted, sync calls via shims that invoke the real primitive)", "Go runtime", "race detector (happens-before)", "real goroutines"},
@@ -155,4 +158,13 @@ func doSelftestDeterminism(base uint64, parallel int, pool []*c14sim.Key, eligib
 func optionFieldsNote() string {
 	fillable, skipped := c14sim.OptionFields()
 	return fmt.Sprintf("filled with generated values: %v; left zero: %v", fillable, skipped)
+}
+
+func envVarNames() []string {
+	out := []string{}
+	for n := range envVars.Vars {
+		out = append(out, n)
+	}
+	sort.Strings(out)
+	return out
 }
